@@ -12,7 +12,6 @@ import (
 	"bytes"
 	"errors"
 	"fmt"
-	"os"
 	"sort"
 	"testing"
 
@@ -35,6 +34,15 @@ type c11ConnDir struct {
 	wireOff int
 	msgs    int
 	partial int
+}
+
+func (d *c11ConnDir) pendingBytes() int {
+	n := -d.headOff
+	for _, m := range d.pending {
+		n += len(m)
+	}
+
+	return n
 }
 
 func c11Chunks(b []byte) [][]byte {
@@ -145,13 +153,39 @@ func (d *c11ConnDir) drain(t c11TB, mode, bufSize int, st *vstats.Collector) {
 		}
 		head := d.pending[0]
 		if m == c11ConnReadStream && d.headOff == 0 && len(head) == 0 {
-			if vstats.IsKnown(c11KeyZeroRead) ||
-				os.Getenv("VERIF_C11_ASSUME_ZEROREAD_KNOWN") == "1" {
-
+			if vstats.IsKnown(c11KeyZeroRead) {
+				// Known finding: keep the stream API away from empty
+				// messages (excluded by construction).
 				st.Known(c11KeyZeroRead)
 				st.Count("excluded_known", 1)
 				m = c11ConnReadMsg
+			} else {
+				st.Count("stream_read_meets_empty_message", 1)
 			}
+		}
+		if m == c11ConnReadStream && d.pendingBytes() == 0 {
+			// Only empty messages are in flight: the byte stream has
+			// nothing to deliver, so a stream Read has to wait. It must
+			// not report an error of its own (in particular not io.EOF
+			// on a healthy connection); the pipe signals "would block".
+			n, err := d.r.Read(make([]byte, bufSize))
+			if n != 0 || (err != nil && !errors.Is(err, pipe.ErrWouldBlock)) {
+				t.Fatalf("%s Conn.Read(buf %d) returned (%d, %v) with only "+
+					"%d empty message(s) in flight; want it to wait for data",
+					d.name, bufSize, n, err, len(d.pending))
+			}
+			if err == nil {
+				d.pending = d.pending[1:]
+			} else {
+				if d.rp.Unread() != 0 {
+					t.Fatalf("%s Conn.Read blocked with %d unread wire bytes",
+						d.name, d.rp.Unread())
+				}
+				d.pending = d.pending[:0]
+			}
+			st.Count("stream_read_waits_on_empty_messages", 1)
+
+			continue
 		}
 
 		switch m {
@@ -360,8 +394,15 @@ func c11ConnCase(t c11TB, s c11Src, st *vstats.Collector, maxSteps int) (
 			fp = append(fp, fmt.Sprintf("w%d.%d.%v.%v|", n, p.s, script,
 				viaMsg)...)
 
-		case op <= 6: // bulk, to cross rotations
+		case op <= 8: // bulk, to cross rotations
 			cnt := s.Int("bulk", 20, 520)
+			if op >= 7 {
+				// stop 0..3 messages before the next rotation
+				cnt = 500 - d.msgs%500 - s.Int("short", 0, 3)
+				if cnt < 1 {
+					cnt = 1
+				}
+			}
 			for j := 0; j < cnt; j++ {
 				b := make([]byte, 1+p.intn(24))
 				p.fill(b)
